@@ -157,13 +157,17 @@ def checkCmap (b : List Nat) : Except Fault Bool := do
   return decide (v = 0)
 
 /-- is the cmap the options ask for usable?  `DirectCmap`: the table is there and has a Unicode BMP subtable that passes
-`CheckCmapSubtable4`; `CachedCmap` (`gr_face_cacheCmap`): the table is there (building the cache is not part of this model) -/
+`CheckCmapSubtable4`; `CachedCmap` (`gr_face_cacheCmap`): the table is there, and the whole cache is built from it (`Cmap.buildCached`) -/
 def cmapUsable (cmap : Option (List Nat)) (cacheCmap : Bool) : Except (Sum Fault GrVerif.Fault) Bool :=
   match (checkedTable 12 checkCmap cmap).mapError Sum.inl with
   | .error e => .error e
   | .ok none => .ok false
   | .ok (some b) =>
-    if cacheCmap then .ok true else
+    if cacheCmap then
+      match (Cmap.buildCached (toBuf b)).mapError Sum.inr with
+      | .error e => .error e
+      | .ok _ => .ok true
+    else
     match (Cmap.bmpSubtable (toBuf b)).mapError Sum.inr with
     | .error e => .error e
     | .ok st => .ok st.isSome
